@@ -875,6 +875,14 @@ func genC04(c *Ctx) {
 		{tag: "uuid-v1", name: "u1.txt", data: []byte("c232ab00-9414-11ec-b3c8-9f6bdeced846\n")},
 		{tag: "uuid-v6", name: "u6.txt", data: []byte("1EC9414C-232A-6B00-B3C8-9E6BDECED846")},
 		{tag: "uuid-v7", name: "u7.txt", data: []byte("017F22E2-79B0-7CC3-98C4-DC0C0C07398F")},
+		{tag: "uuid-v2", name: "u2.txt", data: []byte("000004d2-92e8-21ed-8100-3fdb0085247e")},
+		{tag: "uuid-v3", name: "u3.txt", data: []byte("5df41881-3aed-3515-88a7-2f4a814cf09e")},
+		{tag: "uuid-v4", name: "u4.txt", data: []byte("{919108f7-52d1-4320-9bac-f847db4148a8}")},
+		{tag: "uuid-v5", name: "u5.txt", data: []byte("urn:uuid:2ed6657d-e927-568b-95e1-2665a8aea6a2")},
+		{tag: "uuid-v8", name: "u8.txt", data: []byte("2489E9AD2EE28E008EC932D5F69181C0")},
+		{tag: "uuid-nil", name: "u0.txt", data: []byte("00000000-0000-0000-0000-000000000000")},
+		{tag: "uuid-max", name: "uf.txt", data: []byte("ffffffff-ffff-ffff-ffff-ffffffffffff")},
+		{tag: "uuid-v1-ms-variant", name: "u1c.txt", data: []byte("6ba7b810-9dad-11d1-c0b4-00c04fd430c8")},
 		// generic ASN.1 dump with UTCTime values just before midnight UTC, one with a zone offset
 		{tag: "asn1-utctime", name: "t.der", data: []byte{0x30, 0x20, 0x17, 0x0d, '2', '4', '0', '3', '0', '1', '2', '3', '3', '0', '0', '0', 'Z',
 			0x17, 0x0f, '2', '4', '0', '3', '0', '1', '2', '3', '3', '0', '+', '0', '1', '0', '0'}},
